@@ -152,8 +152,9 @@ pub fn run(prop: &'static str, tier: Tier, rep: &mut Report) {
     }
     // a limit beyond any internal table: one burst of limit + 300 calls at one instant, an
     // hour-long period; exactly `limit` are admitted
-    for window in [WindowType::Fixed, WindowType::SlidingLog, WindowType::SlidingCounter] {
-        let limit = 70_000usize;
+    // (quick: the sliding log, whose state grows with the limit; thorough: all three)
+    for window in tier.pick(vec![WindowType::SlidingLog], vec![WindowType::Fixed, WindowType::SlidingLog, WindowType::SlidingCounter]) {
+        let limit = 66_000usize;
         let period = 3_600_000_000u64;
         let (adm, decisions, problem) = run_pattern(window, limit, period, &[(0, limit + 300)]);
         rep.evaluations += 1;
